@@ -20,8 +20,8 @@ def _normal(p):
 def rule_tm123(ctx: Ctx) -> RuleResult:
     r = RuleResult("TM-1..3", "tee_map: one published source shared by all branches, connected after every branch is subscribed")
     # TM-1 in both subscribe functions
-    for suffix in ("_process_many.subscribe_mux", "_process_many.subscribe"):
-        site = ctx.site(REL, suffix)
+    for suffix, knd in (("_process_many.subscribe_mux", "mux"), ("_process_many.subscribe", "create")):
+        site = ctx.site(REL, suffix, kind=knd)
         r.instances += 1
         m = site.module
         for p in ctx.fn_paths(m, site.subscribe_fn, roles=site.roles, max_iter=2):
@@ -42,13 +42,23 @@ def rule_tm123(ctx: Ctx) -> RuleResult:
             for e in seq:
                 if e.method in ("subscribe", "subscribe_"):
                     b = e.base
+                    loops_ = {x.loop: x.iter for x in p.trace if x.k == "loopiter"}
                     ok = b[0] == "sub" and b[1][0] == "free" and b[1][1] == "sources" and b[2][0] == "loopvar"
+                    # for i, source in enumerate(sources) / for source in sources
+                    if not ok and b[0] == "sub" and b[1][0] == "loopvar" and b[2] == ("const", 1):
+                        it_ = loops_.get(b[1][1])
+                        ok = it_ is not None and it_[0] == "call" and it_[1] == ("builtin", "enumerate") and it_[2] and it_[2][0][0] == "free" and it_[2][0][1] == "sources"
+                    if not ok and b[0] == "loopvar":
+                        it_ = loops_.get(b[1])
+                        ok = it_ is not None and it_[0] == "free" and it_[1] == "sources"
                     r.ob(ok, lambda e=e: Finding("TM-1", "%s{branch-subscription}" % site.name, e.where(),
                                                  "a subscription is made on %s instead of sources[<branch index>]" % show(e.base)))
             for e in loops:
                 it = e.iter
                 ok = it is not None and it[0] == "call" and it[1] == ("builtin", "range") and len(it[2]) == 1 and \
                     it[2][0][0] == "call" and it[2][0][1] == ("builtin", "len") and it[2][0][2][0][0] == "free" and it[2][0][2][0][1] == "sources"
+                ok = ok or (it is not None and it[0] == "call" and it[1] == ("builtin", "enumerate") and it[2] and it[2][0][0] == "free" and it[2][0][1] == "sources")
+                ok = ok or (it is not None and it[0] == "free" and it[1] == "sources")
                 r.ob(ok, lambda e=e: Finding("TM-1", "%s{all-branches}" % site.name, e.where(),
                                              "the subscription loop runs over %s instead of all len(sources) branches" % show(e.iter)))
     # TM-2 / TM-3 in tee_map._tee_map
@@ -119,9 +129,9 @@ def rule_tm4(ctx: Ctx):
     r = RuleResult("TM-4", "tee_map join skeleton (mux): zip emits the key's full slice once all n branches produced and clears the n flags; "
                            "combine emits on every branch item; merge forwards")
     ra = RuleResult("AG-3", "tee_map: multiplexed and plain joins agree per join mode")
-    site = ctx.site(REL, "_process_many.subscribe_mux")
+    site = ctx.site(REL, "_process_many.subscribe_mux", kind="mux")
     spec = site.handler_specs("on_next")[0]
-    psite = ctx.site(REL, "_process_many.subscribe")
+    psite = ctx.site(REL, "_process_many.subscribe", kind="create")
     pspec = psite.handler_specs("on_next")[0]
     branch = next(iter(spec.bound.values()))
     pbranch = next(iter(pspec.bound.values()))
@@ -149,10 +159,11 @@ def rule_tm4(ctx: Ctx):
                 r.ob(ok, lambda: mk_finding("TM-4", spec, "Next", cfg, p, "merge must forward each branch item unchanged; it does: %s" % summary(p), extra="merge"))
                 mux_sk.add(("forward",))
                 continue
-            # slot writes
-            wq = [e for e in data_writes if e.base[1] == "queue"]
-            wf = [e for e in data_writes if e.base[1] == "has_next"]
-            slot = ("binop", "Add", ("binop", "Mult", KEYIDX, None), branch)
+            # slot writes: the value table receives the item, the flag table True (names are discovered, not assumed)
+            wq = [e for e in data_writes if e.value == EVITEM]
+            wf = [e for e in data_writes if e.value == ("const", True)]
+            QN = wq[0].base[1] if wq else None
+            FN = wf[0].base[1] if wf else None
             def own_slot(e):
                 li = linear_index(e.index)
                 return li is not None and li[0] == "scaled" and li[1][0] == "free" and li[1][1] == "n" and li[2] == branch
@@ -162,7 +173,7 @@ def rule_tm4(ctx: Ctx):
             fired = bool(ems)
             if mode == "zip":
                 gate = [e for e in p.trace if e.k == "decision" and e.test[0] == "call" and e.test[1] == ("builtin", "all")]
-                ok = len(gate) == 1 and _slice_of_key(gate[0].test[2][0]) == "has_next"
+                ok = len(gate) == 1 and FN is not None and _slice_of_key(gate[0].test[2][0]) == FN
                 r.ob(ok, lambda: mk_finding("TM-4", spec, "Next", cfg, p, "zip must fire on all(has_next[key slice of n flags]); gate: %s" % [show(e.test) for e in gate], extra="zip-gate"))
                 if ok:
                     r.ob(gate[0].outcome == fired, lambda: mk_finding("TM-4", spec, "Next", cfg, p, "zip emission does not follow its gate: %s" % summary(p), extra="zip-fire"))
@@ -171,16 +182,19 @@ def rule_tm4(ctx: Ctx):
             if fired:
                 ok = len(ems) == 1 and ems[0].event is not None and ems[0].event.kind == "Next" and ems[0].event.keyclass == SAME
                 pay = ems[0].event.payload if ok else None
-                ok = ok and pay[0] == "call" and pay[1] == ("builtin", "tuple") and _slice_of_key(pay[2][0]) == "queue"
+                ok = ok and pay[0] == "call" and pay[1] == ("builtin", "tuple") and QN is not None and _slice_of_key(pay[2][0]) == QN
                 r.ob(ok, lambda: mk_finding("TM-4", spec, "Next", cfg, p,
                                             "the joined item must be tuple(queue[key slice of n values]) for the event's key; emitted: %s" % (show(pay) if pay else summary(p)), extra="tuple"))
                 if mode == "zip":
-                    cf = [e for e in clears if e.base[1] == "has_next"]
+                    cf = [e for e in clears if e.base[1] == FN]
                     loops = {e.loop: e.iter for e in p.trace if e.k == "loopiter"}
                     def all_slots(e):
-                        li = linear_index(e.index)
-                        return li is not None and li[0] == "scaled" and li[2][0] == "loopvar" and \
-                            loops.get(li[2][1]) == ("call", ("builtin", "range"), (li[1],)) and li[1][0] == "free" and li[1][1] == "n"
+                        li = linear_index(e.index, loops)
+                        if li is None or li[0] != "scaled" or not (li[1][0] == "free" and li[1][1] == "n"):
+                            return False
+                        if li[2] == ("fullrange", li[1]):
+                            return True
+                        return li[2][0] == "loopvar" and loops.get(li[2][1]) == ("call", ("builtin", "range"), (li[1],))
                     r.ob(bool(cf) and all(all_slots(e) for e in cf), lambda: mk_finding(
                         "TM-4", spec, "Next", cfg, p, "after a zip emission the has_next flags of all n branches must be cleared; clears: %s" % [e.brief() for e in cf], extra="zip-clear"))
             mux_sk.add((mode, "fire" if fired else "wait"))
@@ -198,20 +212,23 @@ def rule_tm4(ctx: Ctx):
                     ra.ob(ok, lambda: mk_finding("AG-3", pspec, None, pcfg, p, "plain merge must forward the branch item; it does: %s" % summary(p), extra="merge"))
                     plain_sk.add(("forward",))
                     continue
-                w = [e for e in p.trace if e.k == "substore" and e.base[0] == "free" and e.base[1] == "queue"]
+                w = [e for e in p.trace if e.k == "substore" and e.base[0] == "free" and e.value == EV]
+                PQN = w[0].base[1] if w else None
+                pf = [e for e in p.trace if e.k == "substore" and e.base[0] == "free" and e.value == ("const", True)]
+                PFN = pf[0].base[1] if pf else None
                 ok = len(w) == 1 and w[0].index == pbranch and w[0].value == EV
                 ra.ob(ok, lambda: mk_finding("AG-3", pspec, None, pcfg, p, "plain %s must store the item in queue[branch]; writes: %s" % (mode, [e.brief() for e in w]), extra="slot"))
                 fired = bool(ems)
                 if fired:
                     pay = ems[0].eff.arg
-                    ok = len(ems) == 1 and pay[0] == "call" and pay[1] == ("builtin", "tuple") and pay[2][0][0] == "free" and pay[2][0][1] == "queue"
+                    ok = len(ems) == 1 and pay[0] == "call" and pay[1] == ("builtin", "tuple") and pay[2][0][0] == "free" and pay[2][0][1] == PQN
                     ra.ob(ok, lambda: mk_finding("AG-3", pspec, None, pcfg, p, "plain %s must emit tuple(queue); it emits %s" % (mode, show(pay)), extra="tuple"))
                 if mode == "zip":
                     gate = [e for e in p.trace if e.k == "decision" and e.test[0] == "call" and e.test[1] == ("builtin", "all")]
-                    ok = len(gate) == 1 and gate[0].test[2][0][0] == "free" and gate[0].test[2][0][1] == "has_next" and gate[0].outcome == fired
+                    ok = len(gate) == 1 and gate[0].test[2][0][0] == "free" and gate[0].test[2][0][1] == PFN and gate[0].outcome == fired
                     ra.ob(ok, lambda: mk_finding("AG-3", pspec, None, pcfg, p, "plain zip must fire exactly when all(has_next)", extra="zip-gate"))
                     if fired:
-                        cf = [e for e in p.trace if e.k == "substore" and e.base[0] == "free" and e.base[1] == "has_next" and e.value == ("const", False)]
+                        cf = [e for e in p.trace if e.k == "substore" and e.base[0] == "free" and e.base[1] == PFN and e.value == ("const", False)]
                         ra.ob(bool(cf) and all(e.index[0] == "loopvar" for e in cf), lambda: mk_finding(
                             "AG-3", pspec, None, pcfg, p, "plain zip must clear all has_next flags after firing", extra="zip-clear"))
                 plain_sk.add((mode, "fire" if fired else "wait"))
@@ -224,7 +241,7 @@ def rule_tm4(ctx: Ctx):
             ra.paths += 1
             ems = emissions(p)
             gate = [e for e in p.trace if e.k == "decision" and e.test[0] == "call" and e.test[1] == ("builtin", "all")]
-            w = [e for e in p.trace if e.k == "substore" and e.base[0] == "free" and e.base[1] == "is_done" and e.value == ("const", True)]
+            w = [e for e in p.trace if e.k == "substore" and e.base[0] == "free" and e.value == ("const", True)]
             ok = len(gate) == 1 and bool(w) and (len(ems) == 1 and ems[0].method == "on_completed") == bool(gate[0].outcome) and (gate[0].outcome or not ems)
             ra.ob(ok, lambda: mk_finding("AG-3", spec_d, None, {}, p, "the plain tee_map must complete exactly when all branches are done; it does: %s" % summary(p), extra="done"))
     r.require_instances(1)
@@ -235,7 +252,7 @@ def rule_tm5(ctx: Ctx) -> RuleResult:
     """TM-5: the join table grows to (key[0] + 1) * n slots before a key is used."""
     from .poly import RF, Poly, rf, strip_uid
     r = RuleResult("TM-5", "tee_map join table: at key creation the tables are grown, in lock-step, to (key[0] + 1) * n slots")
-    site = ctx.site(REL, "_process_many.subscribe_mux")
+    site = ctx.site(REL, "_process_many.subscribe_mux", kind="mux")
     spec = site.handler_specs("on_next")[0]
     branch = next(iter(spec.bound.values()))
     r.instances += 1
@@ -263,7 +280,9 @@ def rule_tm5(ctx: Ctx) -> RuleResult:
                 q = rf(strip_uid(cnt))
                 n = RF(Poly.atom(("free", "n", site.short)))
                 n_atoms = [x for x in subterms(cnt) if x[0] == "free" and x[1] == "n"]
-                lens = [x for x in subterms(strip_uid(cnt)) if x[0] == "call" and x[1] == ("builtin", "len") and x[2][0][0] == "free" and x[2][0][1] in ("queue", "has_next")]
+                from .st import join_tables
+                tables = join_tables(ctx, spec)
+                lens = [x for x in subterms(strip_uid(cnt)) if x[0] == "call" and x[1] == ("builtin", "len") and x[2][0][0] == "free" and x[2][0][1] in tables]
                 if q is not None and n_atoms and len(lens) == 1:
                     N = RF(Poly.atom(strip_uid(n_atoms[0])))
                     K = RF(Poly.atom(strip_uid(KEYIDX)))
@@ -278,7 +297,8 @@ def rule_tm5(ctx: Ctx) -> RuleResult:
             for e in p.trace[pos:end]:
                 if e.k == "mutate" and e.method == "append" and e.base[0] == "free":
                     apps.setdefault(e.base[1], []).append(e)
-            r.ob(sorted(apps) == ["has_next", "queue"] and all(len(v) == 1 for v in apps.values()), lambda: mk_finding(
+            from .st import join_tables
+            r.ob(set(apps) == join_tables(ctx, spec) and len(apps) == 2 and all(len(v) == 1 for v in apps.values()), lambda: mk_finding(
                 "TM-5", spec, "Create", cfg, p, "each growth step must append exactly one slot to queue and one to has_next; it appends %s" % {k: len(v) for k, v in apps.items()},
                 node=it.node, extra="lock-step"))
             guard = [e for e in p.trace if e.k == "decision" and any(x == branch for x in subterms(e.test))]
